@@ -57,14 +57,39 @@ Definition nextafter (x y : fp) : fp :=
   | _, _ => FNaN
   end.
 
+Definition fge (x y : fp) : bool := fle y x.
+
+(* The exact value of a finite ordinal, as an integer multiple of 2^-149 (the smallest denormal):
+   for magnitude m = e * 2^23 + f the value is f * 2^-149 if e = 0 and (2^23 + f) * 2^(e-150)
+   otherwise.  Used only to decide whether the binary32 difference upper - lower is finite. *)
+Definition P23 : Z := 8388608.
+Definition val149 (z : Z) : Z :=
+  let m := Z.abs z in
+  let e := (m / P23)%Z in
+  let f := (m mod P23)%Z in
+  let v := if (e =? 0)%Z then f else ((P23 + f) * 2 ^ (e - 1))%Z in
+  if (z <? 0)%Z then (- v)%Z else v.
+(* round-to-nearest-even sends an exact value to +-inf iff its magnitude is at least
+   FLT_MAX + ulp/2 = 2^128 - 2^103, i.e. (2^128 - 2^103) * 2^149 in units of 2^-149 *)
+Definition OVERFLOW149 : Z := (2 ^ 277 - 2 ^ 252)%Z.
+(* std::isfinite(upper - lower) for the float subtraction *)
+Definition span_finite (lower upper : fp) : bool :=
+  match lower, upper with
+  | FOrd a, FOrd b =>
+      (Z.abs a <? INF_ORD)%Z && (Z.abs b <? INF_ORD)%Z &&
+      (Z.abs (val149 b - val149 a) <? OVERFLOW149)%Z
+  | _, _ => false
+  end.
+
 (* ------------------------------------------------------------------------------------------
-   2. Device::random_* : parameter validation exactly as written in device.cc            *)
-(* if (p < 0 || p > 1) throw *)
-Definition bernoulli_rejects (p : fp) : bool := flt p fzero || fgt p fone.
-(* if (upper < lower) throw *)
-Definition uniform_rejects (lower upper : fp) : bool := flt upper lower.
-(* if (sd <= 0) throw        (random_normal and random_log_normal; the mean is not examined) *)
-Definition normal_rejects (sd : fp) : bool := fle sd fzero.
+   2. Device::random_X : parameter validation exactly as written in device.cc            *)
+(* if (!(p >= 0 && p <= 1)) throw *)
+Definition bernoulli_rejects (p : fp) : bool := negb (fge p fzero && fle p fone).
+(* if (!(lower <= upper) || !std::isfinite(upper - lower)) throw *)
+Definition uniform_rejects (lower upper : fp) : bool :=
+  negb (fle lower upper) || negb (span_finite lower upper).
+(* if (!(sd > 0)) throw      (random_normal and random_log_normal; the mean is not examined) *)
+Definition normal_rejects (sd : fp) : bool := negb (fgt sd fzero).
 
 (* ------------------------------------------------------------------------------------------
    3. DefaultRandomizer::fill_X                                                           *)
@@ -134,9 +159,10 @@ Definition on_device {A} (d : nat) (l : list (nat * A)) : list A :=
 Record conv (T : Type) := mkConv {
   tofp : T -> fp;      (* the binary32 value as seen by a comparison *)
   offp : fp -> T;
-  (* scale * std::sqrt(c / n) evaluated the way initializer_impl.cc does: c and the uint32 n are
-     doubles, the quotient, the square root and the product with the (promoted) float scale are
-     double operations, the result is narrowed to float once *)
+  (* scale * std::sqrt(c / n) evaluated the way initializer_impl.cc does: c and n are doubles
+     (n an exactly represented integer below 2^33), the quotient, the square root and the
+     product with the (promoted) float scale are double operations, the result is narrowed
+     to float once *)
   scaled_sqrt_ratio : T -> N -> N -> T
 }.
 Arguments tofp {T}. Arguments offp {T}. Arguments scaled_sqrt_ratio {T}.
@@ -191,11 +217,18 @@ Inductive devreq :=
 | QNormal (s : shape) (mean sd : T)       (* x = device.random_normal(s, mean, sd) *)
 | QIdentity (n : N).                      (* x = device.identity(n): shape {n,n}, batch 1 *)
 
-(* uint32 arithmetic of the fan computations, the wrap written out *)
-Definition fan_sum_2d (s : shape) : N := wrap32 (get s 0 + get s 1).
-Definition conv_fan_in (s : shape) : N := wrap32 (wrap32 (get s 0 * get s 1) * get s 2).
-Definition conv_fan_out (s : shape) : N := wrap32 (wrap32 (get s 0 * get s 1) * get s 3).
-Definition conv_fan_sum (s : shape) : N := wrap32 (conv_fan_in s + conv_fan_out s).
+(* the fan computations are carried out in double: static_cast<double>(s[0]) + s[1] and
+   static_cast<double>(s[0]) * s[1] * s[2] etc.  For an admissible shape every product is at
+   most the volume < 2^32 and every sum below 2^33, hence exact in double (C17_conv2d_fans);
+   the model therefore uses unbounded N.  [uint32_fan_sum_*] are the sums as the code formed
+   them before commit 50d7193 (kept to show that the no-wrap theorems are not vacuous). *)
+Definition fan_sum_2d (s : shape) : N := get s 0 + get s 1.
+Definition conv_fan_in (s : shape) : N := get s 0 * get s 1 * get s 2.
+Definition conv_fan_out (s : shape) : N := get s 0 * get s 1 * get s 3.
+Definition conv_fan_sum (s : shape) : N := conv_fan_in s + conv_fan_out s.
+Definition uint32_fan_sum_2d (s : shape) : N := wrap32 (get s 0 + get s 1).
+Definition uint32_conv_fan_sum (s : shape) : N :=
+  wrap32 (wrap32 (wrap32 (get s 0 * get s 1) * get s 2) + wrap32 (wrap32 (get s 0 * get s 1) * get s 3)).
 
 Definition apply_init (i : init) (s : shape) : option devreq :=
   match i with
